@@ -101,3 +101,40 @@ def phase_oracle(prop_id, cause, ix, trace, res, clauses=STOP_CLAUSES, results=T
                 res.fail('%s:%s' % (prop_id, clause), "scheduler %s: %s" % (sp['id'], msg),
                          context(ix))
     return out
+
+
+def rekeyed(case, v):
+    """the same scenario under another set-iteration order, same-instant timer order and
+    insertion order (a deterministic function of the scenario and of v)"""
+    new = S.clone(case)
+    n = 0
+    for sp, _, _ in S_iter(new):
+        n += 1
+        sp['hkey'] = (sp['hkey'] * 5 + 3 * v + n) % 16
+        sp['tkey'] = (sp['tkey'] + v + n) % 4
+        if sp['kind'] == 'sched' and sp.get('order'):
+            k = (v + n) % len(sp['order'])
+            sp['order'] = sp['order'][k:] + sp['order'][:k]
+    return new
+
+
+def with_variants(evaluate_one, n=3):
+    """Drawing a scenario through Hypothesis costs several times more than running it: every
+    generated scenario is therefore also run under n other orders.  A violation found on a
+    variant is reported with the variant itself as the replay."""
+    def evaluate(case):
+        res = evaluate_one(case)
+        if res.violations or 'kind' not in case or len(case.get('members', ())) > 40:
+            return res
+        for v in range(1, n + 1):
+            variant = rekeyed(case, v)
+            other = evaluate_one(variant)
+            res.executions += other.executions
+            res.nontrivial = res.nontrivial or other.nontrivial
+            if other.violations:
+                res.violations = other.violations
+                res.replay_case = other.replay_case or variant
+                break
+        res.label('variants:%d' % n)
+        return res
+    return evaluate
